@@ -270,7 +270,7 @@ def run(tier, seed):
             shutil.rmtree(base, ignore_errors=True)
         sc.env.clear(); sc.env.update(env_old)
         import biglinks
-        for vi in (range(1) if tier == "quick" else range(8)):
+        for vi in (range(3) if tier == "quick" else range(10)):
             bname, bf = biglinks.run_variant(sc, seed + 17 * vi, vi + 2)
             for x in bf:
                 viol.append({"world": "biglinks-%d" % vi, "variant": bname, "why": x, "klass": None})
